@@ -260,6 +260,8 @@ def C10(ctx):
     folds_model(ctx)
     _bdd_family(ctx, "c10", "TraceBdd_C10.cfg")
     _sdd_family(ctx, "c10", "TraceSdd_C10.cfg", nq=4, nt=24)
+    # top-down diagrams: conditioning, node counting and counting interleaved; scratch empty on every known node after every call
+    record_and_validate(ctx, td_jobs(ctx, 3 if ctx.quick else 16 * TH, 150), "TraceTopDown", "TraceTopDown_C10.cfg")
 
 
 def C11(ctx):
